@@ -43,6 +43,8 @@ type storeHelper struct {
 	Action  *ssa.Global
 	PKParam int // index in Fn.Params of the pubkey(s) parameter
 	STParam int // index of the state(s) parameter
+	// PKViaMeta: the batch helper is handed the request metadata list itself and keys entry i by metadata[i].PubKey
+	PKViaMeta bool
 }
 
 // StoreHelperRules validates the helpers that write watermark records (C01.O8 record.value, O9 key) for one kind.
@@ -163,7 +165,17 @@ func (c *Ctx) StoreHelperRules(prop string, s *Slashing, kind string) map[*ssa.F
 			keysMk, ok1 := sliceRootExact(args[2]).(*ssa.MakeSlice)
 			valsMk, ok2 := sliceRootExact(args[3]).(*ssa.MakeSlice)
 			if !ok1 || !ok2 {
-				c.R.Unknown(rule, Fn(fn), c.Pos(ci), "keys/values passed to the batch store are not freshly made slices")
+				// append form: keys, values start empty and grow by exactly one entry per iteration of one full-range loop
+				if h2, why := c.appendFormRecorder(s, fn, ci, encodeOf, paramIdx); h2 != nil {
+					h2.Fn, h2.Batch = fn, true
+					c.R.OK(ruleKey, Fn(fn), c.Pos(ci), "keys = append(keys, pubKey_i || "+h2.Action.Name()+") once per entry")
+					c.R.OK(rule, Fn(fn), c.Pos(ci), "values = append(values, states[i].Encode()) once per entry")
+					out[fn] = h2
+				} else if why != "" {
+					c.R.Fail(rule, Fn(fn), c.Pos(ci), why, "for every i: keys[i] = pubKeys[i] || action, values[i] = states[i].Encode()", nil)
+				} else {
+					c.R.Unknown(rule, Fn(fn), c.Pos(ci), "keys/values passed to the batch store are not freshly made slices")
+				}
 				continue
 			}
 			// find the full-range loop filling both
@@ -282,6 +294,114 @@ func (c *Ctx) StoreHelperRules(prop string, s *Slashing, kind string) map[*ssa.F
 		}
 	}
 	return out
+}
+
+// appendFormRecorder validates `keys = append(keys, key_i); values = append(values, states[i].Encode())` inside one full-range
+// loop over the states (or keys) parameter, with keys and values starting as empty makes, both appends on every iteration and
+// no early exit: entry i of both lists then belongs to iteration i. key_i = pubKey_i || action with pubKey_i = pubKeys[i] or
+// metadata[i].PubKey. Returns the helper description, or ("", reason) / (nil, "") when the shape is another one.
+func (c *Ctx) appendFormRecorder(s *Slashing, fn *ssa.Function, ci ssa.CallInstruction, encodeOf func(ssa.Value) (ssa.Value, bool), paramIdx func(*ssa.Function, ssa.Value) int) (*storeHelper, string) {
+	args := ci.Common().Args
+	kPhi, ok1 := args[2].(*ssa.Phi)
+	vPhi, ok2 := args[3].(*ssa.Phi)
+	if !ok1 || !ok2 || kPhi.Block() != vPhi.Block() {
+		return nil, ""
+	}
+	var L *Loop
+	for _, l := range FindLoops(fn) {
+		if l.Header == kPhi.Block() && l.FullRange && l.BoundLen != nil {
+			L = l
+		}
+	}
+	if L == nil {
+		return nil, ""
+	}
+	grow := func(phi *ssa.Phi) (*ssa.Call, bool) {
+		var app *ssa.Call
+		empty := false
+		for _, e := range phi.Edges {
+			switch x := e.(type) {
+			case *ssa.MakeSlice:
+				if an.IsConstInt(x.Len, 0) {
+					empty = true
+				}
+			case *ssa.Call:
+				if isBuiltin(x, "append") && x.Call.Args[0] == ssa.Value(phi) {
+					app = x
+				}
+			}
+		}
+		return app, empty && app != nil && len(phi.Edges) == 2
+	}
+	kApp, okK := grow(kPhi)
+	vApp, okV := grow(vPhi)
+	if !okK || !okV {
+		return nil, "keys / values are not lists that start empty and grow by append in the loop"
+	}
+	kEl, vEl := varargValues(kApp.Call.Args[1]), varargValues(vApp.Call.Args[1])
+	if len(kEl) != 1 || len(vEl) != 1 {
+		return nil, "an iteration appends more than one key or value"
+	}
+	for _, app := range []*ssa.Call{kApp, vApp} {
+		a := app
+		if L.IterationSkips(func(i ssa.Instruction) bool { return i == ssa.Instruction(a) }) {
+			return nil, "an iteration can skip the append of its key or value"
+		}
+	}
+	if len(L.BreakEdges()) > 0 {
+		return nil, "the loop building keys and values can be left early"
+	}
+	// the batch store is reached only through the loop's exit
+	hdr, exitB := L.Header, L.Exit
+	if x, _ := an.Cut(an.CutQuery{From: an.Entry(fn), Target: func(i ssa.Instruction) bool { return i == ci.(ssa.Instruction) },
+		AcceptEdge: func(b *ssa.BasicBlock, i int, a *an.Atom) bool { return b == hdr && b.Succs[i] == exitB }}); x != nil {
+		return nil, "the batch store is reachable before every key/value was built"
+	}
+	// value: states[idx].Encode() (the range value of the loop counts as states[idx])
+	recv, ok := encodeOf(vEl[0])
+	if !ok {
+		return nil, "the value appended is not the encoding of a state"
+	}
+	stRoot, idx, ok := elemLoad(recv)
+	if !ok || idx != L.Idx {
+		return nil, "the value appended is not the encoding of the i-th state"
+	}
+	// key: a fresh slice built from pubKey_i || action
+	elemMk, ok := sliceRootExact(kEl[0]).(*ssa.MakeSlice)
+	if !ok {
+		return nil, "the key appended is not a freshly made slice"
+	}
+	isKey := func(v ssa.Value) bool { return sliceRootExact(v) == ssa.Value(elemMk) }
+	inKey := func(v ssa.Value) bool {
+		if sl, ok := v.(*ssa.Slice); ok {
+			return isKey(sl.X)
+		}
+		return isKey(v)
+	}
+	pk, g, why := keyBuildOf(fn, elemMk, isKey, inKey)
+	if why != "" {
+		return nil, "database key: " + why
+	}
+	h := &storeHelper{Action: g}
+	if r, i2, ok := elemLoad(pk); ok && i2 == L.Idx {
+		h.PKParam = paramIdx(fn, r)
+	} else if owner, f, base := an.FieldOf(pk); owner != nil && f == "PubKey" {
+		r, i2, ok := elemLoad(base)
+		if !ok || i2 != L.Idx {
+			return nil, "the key is not built from the i-th entry's public key"
+		}
+		h.PKParam, h.PKViaMeta = paramIdx(fn, r), true
+	} else {
+		return nil, "the key is not built from the i-th public key"
+	}
+	h.STParam = paramIdx(fn, stRoot)
+	if h.PKParam < 0 || h.STParam < 0 {
+		return nil, "keys/values are not built from the helper's parameters"
+	}
+	if L.BoundLen != ssa.Value(fn.Params[h.STParam]) && L.BoundLen != ssa.Value(fn.Params[h.PKParam]) {
+		return nil, "the loop does not run over the states or the keys parameter"
+	}
+	return h, ""
 }
 
 // lenIs reports whether n is len(x) for the given slice value (parameter or root).
@@ -594,7 +714,11 @@ func (c *Ctx) batchAlignment(prop string, s *Slashing, fhs map[*ssa.Function]boo
 		h := shs[ci.Common().StaticCallee()]
 		nrec++
 		args := ci.Common().Args
-		if !h.Batch || sliceRootExact(args[h.STParam]) != stRoot || pkMk == nil || sliceRootExact(args[h.PKParam]) != ssa.Value(pkMk) {
+		okPK := pkMk != nil && sliceRootExact(args[h.PKParam]) == ssa.Value(pkMk)
+		if h.PKViaMeta {
+			okPK = sliceRootExact(args[h.PKParam]) == metaP // the helper keys entry i by metadata[i].PubKey itself
+		}
+		if !h.Batch || sliceRootExact(args[h.STParam]) != stRoot || !okPK {
 			c.R.Fail(prop+".O8 record.value", Fn(E), c.Pos(ci), "the states recorded are not the checked states under the same public keys", "storeAll(pubKeys, states)", nil)
 		} else {
 			c.R.OK(prop+".O8 record.value", Fn(E), c.Pos(ci), "the checked states are recorded under the same public keys")
